@@ -1,48 +1,17 @@
 """C14: hash_map holds exactly the reference key->value association."""
-import os, sys
+import sys
 import vlib
-from comp.hashmap import gen
-
-def crossed_rehash(cid, lines, ri):
-    n_ins = sum(1 for l in lines if l[0] in "ix")
-    if n_ins <= 10:
-        return None
-    return ("|".join(lines))   # distinct script that crossed at least one rehash
+from comp.hashmap import check as hashmap
 
 def main():
     c = vlib.Check("C14")
-    c.rule = ("seeded op scripts (insert/operator[]=/get+find/remove/iterate/size) over 5 hash functions "
-              "(identity, constant, mod 3, frg::hash<uint64_t>, high bits) and key spaces 8..2^40, biased to "
-              "cross rehash thresholds; non-trivial = distinct script with more than 10 insertions (>= 1 rehash beyond the first)")
-    c.trusted = ["Coq 8.16.1 kernel (coqc; vm_compute not used by the C14 proofs)", "extraction: ExtrOcamlBasic only; OCaml 4.13.1; comp/hashmap/driver.ml",
-                 "correspondence harness comp/hashmap/harness.cpp (g++ -fsanitize=address,undefined, -fno-access-control)",
-                 "oracle: std::unordered_map, lifetime/allocation registries in lib/vharness.hpp",
-                 "modelled, not verified: chain pointers as lists, placement new/destroy (checked by the registries)"]
+    c.rule = hashmap.RULE
+    c.trusted = ["Coq 8.16.1 kernel (coqc; vm_compute only in Examples)"] + hashmap.TRUSTED
     c.assumptions = ["hash is any total function (Section variable)", "insert only of absent keys (documented precondition)",
                      "keys compared with ==; element copy/move behave as value transfer"]
+    c.kind_filter = lambda k: k not in vlib.LIFETIME_KINDS     # lifetime/allocation kinds belong to C16
     c.prove()
-    okm, _ = vlib.coq_make(["HashMap/HashMapExtract.vo"])
-    okd, drv, dlog = vlib.ocaml_build("hashmap_m", ["hashmap_model"], os.path.join(vlib.ROOT, "comp/hashmap/driver.ml"))
-    okh, har, hlog = vlib.cxx_build("hashmap_h", os.path.join(vlib.ROOT, "comp/hashmap/harness.cpp"))
-    if not (okm and okd):
-        c.broken.append("model extraction/driver build failed: " + dlog[-500:])
-    if not okh:
-        c.broken.append("harness does not compile against /repo: " + hlog[-1500:])
-        return c.finish()
-    if c.replay:
-        cases = vlib.read_replay(c.replay)
-    else:
-        cases = gen.corpus()
-        n = 600 if c.tier == "quick" else 6000
-        for i in range(n):
-            cases.append(("g%d" % i, gen.gen_case(c.rng, c.rng.choice([12, 30, 60, 150, 400]))))
-        if c.tier == "thorough":
-            cases += gen.exhaustive_small(4)
-    for _, ls in cases:
-        c.count("ops", len(ls)); c.count("hash_kind_" + ls[0].split()[-1])
-    impl = vlib.run_cases(har, cases)
-    model = vlib.run_cases(drv, cases) if okd else {}
-    c.compare(cases, impl, model, crossed_rehash)
+    hashmap.run(c)
     sys.exit(c.finish())
 
 main()
